@@ -216,6 +216,75 @@ def mon_C01_sched(info):
     return out
 
 
+def mon_C01_finish(info):
+    """a claim must never land on a task that was done / canceled when the claim took effect: at the end
+    no task is doing-and-claimed unless a claimer was told it won it; the table forbids done->doing."""
+    out = mon_sched_common(info)
+    fs = info.get('final_snapshot')
+    if fs:
+        for f in monitors.mon_C06({'after': fs}):
+            out.append(f)
+        finished = {o['req']['id'] for o in info['outs'] if o['kind'] == 'w' and o['rc'] == 0 and (o['req'] or {}).get('k') == 'set'}
+        won = set()
+        for o in info['outs']:
+            if o['kind'] == 'w' and o['rc'] == 0 and (o['req'] or {}).get('k') == 'claim':
+                try:
+                    v = json.loads(o['stdout'])
+                    if v.get('status') != 'no_ready':
+                        won.add(v['id'])
+                except Exception:
+                    pass
+        # claim then finish is legal (doing -> done); finish then claim is not (done -> doing is not in the table, and a
+        # finished task is not ready): if both succeeded, the task must have ended in its finished state
+        ts = monitors.tasks_by_id(fs)
+        for i in finished & won:
+            if i in ts and ts[i]['state'] in ('doing', 'todo'):
+                out.append(('claim_landed_on_finished_task', i, ts[i]['state'], ts[i]['claimed_by']))
+    return out
+
+
+def missing_lock_stress(ctx):
+    """Free-running (uncontrolled) claimers released together on a store whose lock file is missing: the
+    lock file is recreated on demand and must still exclude (search only: a race, not a schedule)."""
+    import threading
+    rounds = 6 if ctx.quick() else 40
+    bad = None
+    for r in range(rounds):
+        st = Store()
+        try:
+            for k in range(6):
+                st.run(['new', 'task'], stdin=json.dumps({'title': 't%d' % k}).encode())
+            os.remove(os.path.join(st.ergodir, 'lock'))
+            gate = threading.Barrier(8)
+            outs = [None] * 8
+
+            def claim(j):
+                gate.wait()
+                outs[j] = st.run(['--agent', 'a%d' % j, '--json', 'claim'])
+            th = [threading.Thread(target=claim, args=(j,)) for j in range(8)]
+            [t.start() for t in th]
+            [t.join() for t in th]
+            won = {}
+            for j, (rc, out, err) in enumerate(outs):
+                if rc == 0:
+                    try:
+                        v = json.loads(out)
+                        if v.get('status') != 'no_ready':
+                            won.setdefault(v['id'], []).append('a%d' % j)
+                    except Exception:
+                        pass
+            dbl = {i: a for i, a in won.items() if len(a) > 1}
+            if dbl:
+                bad = dbl
+                break
+        finally:
+            st.close()
+    ctx.cov['missing_lock_stress_rounds'] = rounds
+    if bad:
+        ctx.violations.append(('monitor', 'with the lock file missing, one task was handed to several simultaneous claimers: %s' % bad,
+                               {'kind': 'stress', 'how': 'rm .ergo/lock; start 8 `ergo claim` processes at once', 'winners': bad}))
+
+
 def mon_C01_claimers_only(info):
     """claimers + compaction only: nobody puts a task back to todo, so no id may be won twice and every
     winner must still hold its task at the end."""
@@ -393,6 +462,9 @@ def check_C01(ctx):
     n = 60 if ctx.quick() else 800
     sched_check(ctx, n, {'nwriters': 4, 'nreaders': 0, 'claimers': True, 'pre_steps': 10}, mon_C01_sched)
     sched_check(ctx, n // 2, {'nwriters': 4, 'nreaders': 0, 'pre_steps': 8}, mon_C01_sched)
+    # claimers racing with somebody finishing / cancelling the oldest ready task
+    sched_check(ctx, n // 2, {'nwriters': 2, 'nreaders': 0, 'claimers': True, 'pre_steps': 10, 'fixed': ['finish', 'finish']}, mon_C01_finish)
+    missing_lock_stress(ctx)
     # claimers racing with a log rewrite (compact) on a log with squeezable history
     sched_check(ctx, n // 2, {'nwriters': 3, 'nreaders': 0, 'claimers': True, 'pre_steps': 30, 'fixed': ['compact'],
                               'pre_profile': {'weights': {'set': 60, 'new': 30, 'claim': 0, 'compact': 0, 'malformed': 0, 'prune': 0},
@@ -407,17 +479,31 @@ def init_race(ctx):
     lost = 0
     n = 0
     try:
-        for variant in ('plans', 'lock'):
+        for variant in ('plans', 'lock', 'legacy'):
             st = Store()
             try:
-                os.remove(st.log) if variant == 'plans' else os.remove(os.path.join(st.ergodir, 'lock'))
+                if variant == 'plans':
+                    os.remove(st.log)
+                elif variant == 'lock':
+                    os.remove(os.path.join(st.ergodir, 'lock'))
+                else:
+                    st.run(['new', 'task'], stdin=b'{"title":"old item"}')
+                    os.rename(st.log, os.path.join(st.ergodir, 'events.jsonl'))      # a legacy-only store
                 ctl = sched.Controller(st)
                 try:
-                    p = ctl.launch('w', {'k': 'init'}, ['init'], None, 'ensure.create')
-                    rc, out, err = st.run(['--json', 'new', 'task'], stdin=b'{"title":"first write"}')
-                    ack = rc == 0
-                    while p.at is not None:
-                        ctl.release(p)
+                    if variant == 'legacy':
+                        # the writer has resolved the log path and is about to take the lock; init runs to completion meanwhile
+                        p = ctl.launch('w', {'k': 'new'}, ['--json', 'new', 'task'], b'{"title":"first write"}', 'lock.attempt')
+                        st.run(['init'])
+                        while p.at is not None:
+                            ctl.release(p)
+                        ack = p.rc == 0
+                    else:
+                        p = ctl.launch('w', {'k': 'init'}, ['init'], None, 'ensure.create')
+                        rc, out, err = st.run(['--json', 'new', 'task'], stdin=b'{"title":"first write"}')
+                        ack = rc == 0
+                        while p.at is not None:
+                            ctl.release(p)
                     n += 1
                     rc2, out2, _ = st.run(['--json', 'list', '--all'])
                     shown = [t['title'] for t in json.loads(out2)] if rc2 == 0 else None
@@ -438,6 +524,7 @@ def check_C02(ctx):
     n = 90 if ctx.quick() else 1200
     sched_check(ctx, n, {'nwriters': 4, 'nreaders': 1}, mon_sched_common)
     init_race(ctx)
+    write_syscall_probe(ctx, 'C02')
     if not ctx.quick():
         # exhaustive: every interleaving of the sync points of two writers (5 steps each) on 3 store shapes
         orders = interleavings(5, 5)
@@ -465,6 +552,7 @@ def check_C13(ctx):
     n = 90 if ctx.quick() else 1200
     sched_check(ctx, n, {'nwriters': 3, 'nreaders': 3}, mon_C13_sched)
     sched_check(ctx, n // 2, {'nwriters': 1, 'nreaders': 3, 'fixed': ['compact', 'plan'], 'pre_steps': 10}, mon_C13_sched)
+    write_syscall_probe(ctx, 'C13')
     if not ctx.quick():
         orders = interleavings(5, 3)
         sched_check(ctx, 4, {'nwriters': 1, 'nreaders': 1}, mon_C13_sched, orders=orders * 4)
@@ -819,6 +907,17 @@ def result_files(ctx):
                     bad.append(('file_url', path, r0['file_url']))
                 if len(res) != nres or [x['summary'] for x in res] != ['s %d' % k for k in reversed(range(len(cases))) if 's %d' % k in [y['summary'] for y in res]]:
                     pass
+        # same path, content changed, mtime preserved (cp -p, rsync -t, tar): the recorded hash must be that of the NEW content
+        pth = os.path.join(proj, 'out/a.txt')
+        stt = os.stat(pth)
+        open(pth, 'w').write('alpha, second version')
+        os.utime(pth, ns=(stt.st_atime_ns, stt.st_mtime_ns))
+        rc, _, _ = st.run(['set', i], stdin=json.dumps({'result_path': 'out/a.txt', 'result_summary': 'again'}).encode())
+        if rc == 0:
+            nres += 1
+            r0 = json.loads(st.run(['--json', 'show', i])[1])['results'][0]
+            if r0['sha256_at_attach'] != hashlib.sha256(open(pth, 'rb').read()).hexdigest():
+                bad.append(('stale_sha_after_mtime_preserving_rewrite', r0['sha256_at_attach'][:12]))
         # results survive later commands and compaction, newest first
         st.run(['set', i], stdin=b'{"state":"done","title":"renamed"}')
         st.run(['compact'])
@@ -846,6 +945,7 @@ def check_C06(ctx):
     n, steps = sizes(ctx, (48, 25), (600, 30))
     prof = {'weights': {'set': 45, 'claim': 18, 'new': 25}}
     driver.history_check(ctx, tags, n, steps, profile=prof)
+    sched_check(ctx, 30 if ctx.quick() else 400, {'nwriters': 2, 'nreaders': 0, 'claimers': True, 'pre_steps': 10, 'fixed': ['finish', 'finish']}, mon_C01_finish)
 
 
 def check_C07(ctx):
@@ -1049,7 +1149,9 @@ def plan_malformed(ctx):
             b'{"title":"x","tasks":[{"title":"a","after":"b"}]}', b'{"title":null,"tasks":[{"title":"a"}]}',
             b'{"title":"x","tasks":[]}', b'{"title":"x"}', b'{"title":"x","tasks":[{"title":"a","after":["a"]}]}',
             b'{"title":"x","tasks":[{"title":"a","after":["b"]},{"title":"b","after":["a"]}]}',
-            b'{"title":"x","tasks":[{"title":"a"},{"title":"a"}]}', b'{"title":"x","body":"  ","tasks":[{"title":"a"}]}']
+            b'{"title":"x","tasks":[{"title":"a"},{"title":"a"}]}', b'{"title":"x","body":"  ","tasks":[{"title":"a"}]}',
+            b'{"title":"x","tasks":[{"title":"a"}]}}', b'{"title":"x","tasks":[{"title":"a"}]}]', b'{"title":"x","tasks":[{"title":"a"}]} }{"title":"y","tasks":[{"title":"b"}]}',
+            b'{"title":"x","tasks":[{"title":"a"}]}\n]\n', b'{"title":"x","tasks":[{"title":"a"}]} 1', b'{"title":"x","tasks":[{"title":"a"}]} null', b'{"title":"x","tasks":[{"title":"a"}]} "s"']
     st = Store()
     bad = []
     try:
@@ -1148,6 +1250,11 @@ def check_C12(ctx):
         if not ctx.quick():
             variants.append(('huge', base + b'{"type":"title","ts":"","data":{"id":"X","title":"' + b'a' * (11 * 1024 * 1024) + b'"}}\n' + base))
             variants.append(('huge_tail', base + b'x' * (11 * 1024 * 1024)))
+        # a damaged update line that is short in characters but long in bytes (CJK / emoji text), in the middle of the log
+        for txt in ('日本語のタイトルです' * 8, '\U0001F600' * 45, 'é' * 120):
+            ls = list(lines)
+            ls.insert(max(1, len(ls) // 2), ('{"type":"title","ts":"2026-01-01T00:00:00Z","data":{"id":"ABCDEF","title":"' + txt).encode())
+            variants.append(('mb_bad_line', b'\n'.join(ls)))
         variants.append(('huge_small', b'{"type":"zz","ts":"","data":{}}\n' + b'y' * (10 * 1024 * 1024 + 5) + b'\n'))
         common.INTERN.__init__()
         st = Store()
@@ -1188,7 +1295,7 @@ def check_C12(ctx):
             meta.append((kind, len(data)))
             kinds[kind] = kinds.get(kind, 0) + 1
             # CLI level: determinism, purity, promptness, error message
-            if rng.random() < (0.25 if ctx.quick() else 0.1) or kind.startswith('huge'):
+            if rng.random() < (0.25 if ctx.quick() else 0.1) or kind.startswith('huge') or kind == 'mb_bad_line':
                 before = dir_digest(st.ergodir)
                 import time as _t
                 t0 = _t.time()
